@@ -472,7 +472,8 @@ Check (eq_refl : same_payload =
    Audit round 1: `hdr_prefix` of Parse/HdrLaxC05.v had a third conjunct `v_transport q = None \/
    lhv_tr v <> None` that is vacuous (the prefix of a rejection never has a transport layer:
    pwire_rej_no_transport, Parse/LaxHdrPrefix2.v); it is replaced by the fact `v_transport q = None`.
-   As for C05_lax_prefix, q has layer granularity: for a fault inside the network layer `v_net q = None`. *)
+   As for C05_lax_prefix, q has layer granularity: for a fault inside the network layer `v_net q = None`;
+   that case is C05_headers_lax_prefix_net (last block of this file). *)
 From EP Require Import Parse.LaxHdrPrefix2.
 Theorem C05_headers_lax_prefix : forall bs et, bytes_ok bs ->
   (14 <= len bs ->
@@ -731,3 +732,170 @@ Proof.
   - eexists _, _. split; vm_compute; reflexivity.
 Qed.
 (* ---- end audit round 1 ---- *)
+
+(* ---- audit round 2 (C05): LaxPacketHeaders, faults INSIDE the network layer ---------------------------------
+   C05_headers_lax_prefix above inherits pwire's layer granularity: for a fault inside the network layer it
+   speaks about the link extensions and the stop error only.  Here the finer reference decoder pwire2 of
+   C05_lax_prefix_net is carried over to LaxPacketHeaders, by composition (Parse/LaxHdrPrefixNet.v) of
+   C05_lax_prefix_net with C04's lax whole-packet theorem (C04_lax_headers_eq_slices: `lhagree` between
+   LaxPacketHeaders and the lax slicing result cut at a refilled extension header), C04_lax_cut_is_slicing_*
+   and C04_lax_ipv6_slots_in_order.  No new model.
+
+   strict slicing = Err e behind the first header, outside the documented struct-decoding exception
+   (`lax_stopped_at_ext (LaxCut.from_* true bs) = false`)  ==>  everything C05_lax_prefix_net says about
+   pwire2 and the LaxSlicedPacket result r', and LaxPacketHeaders returns Ok p with view v such that
+     - pwire2 = P2RejNet _ n tag e_ref (fault at an authentication / extension header behind a good IP header):
+       the network header windows of v are exactly those of n (IP header window; IPv4: no authentication
+       header; IPv6: first next-header, fragmentation flag so far, window of the extension headers
+       completely decoded in front of the faulty one), v has no transport header, the payload of v is the IP
+       payload descriptor of n (incomplete flag, the ip number that announced the faulty header,
+       fragmentation flag, length source, window from the faulty header to the end of what the IP length
+       field allows), and the stop error of v is (e', tag) with the EXACT layer tag and e' = e_ref, or e' =
+       e_ref with the length source replaced by Slice (`stop_same`: C04's disclosed relaxation, observation
+       (C) of notes/C04.md).  The relaxation is needed inside the network layer:
+       C05_headers_stop_src_refuted below is the witness (MACsec short length in front of an IPv6 payload
+       length fallback: the reference decoder and LaxSlicedPacket name MacsecShortLength in the record,
+       LaxPacketHeaders names Slice);
+     - pwire2 = P2Fb _ _ inc resumed (IPv4 total length / IPv6 payload length fallback): the network header
+       windows of v are those of the network layer n of the resumed strict decoding, net_flags n = (inc,
+       Slice), the payload of v is flagged incomplete exactly when inc; resumed = P2RejNet: the previous
+       item for it; resumed accepts / fails behind the network layer: n is its network layer and a fault
+       behind it satisfies hdr_outcome (as in C05_headers_lax_prefix);
+     - IPv6: the struct's slots hold exactly the extension headers the (uncut) LaxSlicedPacket result r'
+       iterates to -- the headers decoded in front of the fault, whose window is the extension window of n
+       (`lax_slots_in_order`, pinned at C04_lax_ipv6_slots_in_order).
+   The F11 clause of C04's stop error relation cannot fire: every P2RejNet of pwire2, nested ones included,
+   carries an error with in_net_layer = true (C05_partial_reference2_nested_class). *)
+From EP Require Import Parse.HdrLaxSlots2 Parse.LaxHdrPrefixNet.
+
+Theorem C05_partial_reference2_nested_class : forall bs et,
+  nested_class (pwire2_ethernet bs) /\ nested_class (pwire2_ether_type bs et) /\
+  nested_class (pwire2_from_ip bs).
+Proof. exact pwire2_nested_class. Qed.
+Print Assumptions C05_partial_reference2_nested_class.
+
+Theorem C05_headers_lax_prefix_net : forall bs et, bytes_ok bs ->
+  (14 <= len bs ->
+   hdr_prefix_net_ok (SlicedPacket.from_ethernet bs) (pwire2_ethernet bs)
+     (LaxCut.from_ethernet true bs) (LaxSlicedPacket.from_ethernet bs) (LaxPacketHeaders.from_ethernet bs)) /\
+  hdr_prefix_net_ok (SlicedPacket.from_ether_type et bs) (pwire2_ether_type bs et)
+    (LaxCut.from_ether_type true et bs) (LaxSlicedPacket.from_ether_type et bs)
+    (LaxPacketHeaders.from_ether_type et bs) /\
+  (ip_header_fault bs = None ->
+   hdr_prefix_net_ok (SlicedPacket.from_ip bs) (pwire2_from_ip bs)
+     (LaxCut.from_ip true bs) (LaxSlicedPacket.from_ip bs) (LaxPacketHeaders.from_ip bs)).
+Proof. exact hdr_lax_prefix_net. Qed.
+Print Assumptions C05_headers_lax_prefix_net.
+
+(* pin the meaning *)
+Check (eq_refl : hdr_prefix_net_ok =
+  fun strict pw laxcut lax lh => forall e, strict = Err e -> lax_stopped_at_ext laxcut = false ->
+    exists e_ref r' p v,
+      rej2 pw = Some e_ref /\ res_rel (VErr e) (VErr e_ref) /\ is_net_rej pw = in_net_layer e /\
+      lax = Ok r' /\ net_outcome lax_outcome pw (lview r') /\
+      lh = Ok p /\ lhview_of p = Ok v /\ hdr_net_outcome pw v /\
+      lax_slots_in_order (Ok p) (Ok r')).
+Check (eq_refl : hdr_net_outcome =
+  fun pw v =>
+    match pw with
+    | P2RejNet _ n tag e => hdr_stopped_in_net v n tag e
+    | P2Fb _ _ inc resumed =>
+        exists n, lhv_net v = Some (lnet_hdr n) /\ net_flags n = Some (inc, LsSlice) /\
+          payload_inc (lhv_payload v) = inc /\
+          match resumed with
+          | P2RejNet _ n' tag e' => n' = n /\ hdr_stopped_in_net v n tag e'
+          | P2Acc q' => v_net q' = Some (strictify_net n)
+          | P2Rej q' e' => v_net q' = Some (strictify_net n) /\ hdr_outcome e' v
+          | _ => False
+          end
+    | _ => True
+    end).
+Check (eq_refl : hdr_stopped_in_net =
+  fun v n tag e =>
+    lhv_net v = Some (lnet_hdr n) /\ lhv_tr v = None /\ lhv_payload v = lnet_payload n /\
+    exists e', lhv_stop v = Some (e', tag) /\ stop_same e' e).
+Check (eq_refl : lnet_hdr =
+  fun n => match strictify_net n with
+           | VIpv4 h a _ => HvIpv4 h a
+           | VIpv6 h f fr x _ => HvIpv6 h f fr x
+           | VArp w => HvArp w
+           end).
+Check (eq_refl : lnet_payload =
+  fun n => match n with LVIpv4 _ _ p | LVIpv6 _ _ _ _ p => LHvpIp p | LVArp _ => LHvpEmpty end).
+Check (eq_refl : stop_same =
+  fun eh es =>
+    match eh, es with
+    | ELen lh, ELen ls => lh = ls \/ lh = le_set_src ls LsSlice
+    | EContent c, EContent c' => c = c'
+    | _, _ => False
+    end).
+Check (eq_refl : nested_class =
+  fix nc (pw : pres2) : Prop :=
+    match pw with
+    | P2RejNet _ _ _ e => in_net_layer e = true
+    | P2Fb _ _ _ r => nc r
+    | _ => True
+    end).
+
+(* `stop_same` cannot be strengthened to equality, also for faults inside the network layer: on this packet
+   (Ethernet II / MACsec with short length / IPv6 whose payload length exceeds the data / destination options
+   / routing header cut short) pwire2 answers P2Fb .. (P2RejNet .. (ELen l)) with le_src l =
+   MacsecShortLength, LaxSlicedPacket records exactly that, LaxPacketHeaders records l with source Slice;
+   the network header windows, the payload descriptor and the layer tag agree *)
+Theorem C05_headers_stop_src_refuted :
+  exists bs q q' e n l,
+    bytes_ok bs /\ 14 <= len bs /\ lax_stopped_at_ext (LaxCut.from_ethernet true bs) = false /\
+    pwire2_ethernet bs = P2Fb q e true (P2RejNet q' n LyIpv6RouteHeader (ELen l)) /\
+    le_src l = LsMacsecShortLength /\
+    (exists r', LaxSlicedPacket.from_ethernet bs = Ok r' /\
+                lsp_stop_err r' = Some (ELen l, LyIpv6RouteHeader)) /\
+    exists p v, LaxPacketHeaders.from_ethernet bs = Ok p /\ lhview_of p = Ok v /\
+                lhv_net v = Some (lnet_hdr n) /\ lhv_payload v = lnet_payload n /\
+                lhv_stop v = Some (ELen (le_set_src l LsSlice), LyIpv6RouteHeader) /\
+                ELen (le_set_src l LsSlice) <> ELen l.
+Proof. exact lax_hdr_stop_src_refuted. Qed.
+Print Assumptions C05_headers_stop_src_refuted.
+
+(* non-vacuity: the packet of C05_ex_prefix_net_v6 (routing header cut short behind a complete destination
+   options header): hypotheses hold, pwire2 = P2RejNet, the struct view has the IPv6 header window, first
+   next-header 60, the extension window [54, 62), the payload descriptor (number 43, [62, 74)), the stop error
+   = the reference decoder's record on Ipv6RouteHeader; the destination options slot holds [54, 62), the
+   routing slot is empty *)
+Example C05_ex_headers_prefix_net_v6 :
+  bytes_ok ex_v6_route_cut /\ 14 <= len ex_v6_route_cut /\
+  SlicedPacket.from_ethernet ex_v6_route_cut = Err ex_v6_route_err /\
+  lax_stopped_at_ext (LaxCut.from_ethernet true ex_v6_route_cut) = false /\
+  pwire2_ethernet ex_v6_route_cut =
+    P2RejNet (mkVPacket (Some (VEthernet2 (0, 74))) [] None None) ex_v6_route_net
+      LyIpv6RouteHeader ex_v6_route_err /\
+  lhvres_of_h (LaxPacketHeaders.from_ethernet ex_v6_route_cut) =
+    LHOk (mkLHv (Some (HvlEthernet2 (0, 14))) [] (Some (HvIpv6 (14, 40) (Some 60) false (54, 8))) None
+                (LHvpIp (mkLVIp false 43 false LsIpv6HeaderPayloadLen (62, 12)))
+                (Some (ex_v6_route_err, LyIpv6RouteHeader))) /\
+  lnet_hdr ex_v6_route_net = HvIpv6 (14, 40) (Some 60) false (54, 8) /\
+  exists p hd x, LaxPacketHeaders.from_ethernet ex_v6_route_cut = Ok p /\
+    lh_net p = Some (HnIp (IhV6 hd x)) /\
+    map (fun k => option_map win_of (HdrSlots.slot_get x k))
+        [HdrSlots.SHbh; HdrSlots.SDest; HdrSlots.SRoute; HdrSlots.SFdest; HdrSlots.SFrag; HdrSlots.SAuth] =
+      [None; Some (54, 8); None; None; None; None].
+Proof.
+  split; [apply bytes_okb_spec; vm_compute; reflexivity|].
+  split; [vm_compute; discriminate|]. split; [vm_compute; reflexivity|].
+  split; [vm_compute; reflexivity|]. split; [vm_compute; reflexivity|].
+  split; [vm_compute; reflexivity|]. split; [reflexivity|].
+  do 3 eexists. split; [vm_compute; reflexivity|]. split; [reflexivity|]. vm_compute; reflexivity.
+Qed.
+
+(* the fallback case: the packet of C05_ex_prefix_net_fallback (IPv4 announcing 100 bytes with 24 present,
+   4 bytes of an authentication header) *)
+Example C05_ex_headers_prefix_net_fallback :
+  bytes_ok ex_v4_fb_ah /\ ip_header_fault ex_v4_fb_ah = None /\
+  lax_stopped_at_ext (LaxCut.from_ip true ex_v4_fb_ah) = false /\
+  lhvres_of_h (LaxPacketHeaders.from_ip ex_v4_fb_ah) =
+    LHOk (mkLHv None [] (Some (HvIpv4 (0, 20) None)) None
+                (LHvpIp (mkLVIp true 51 false LsSlice (20, 4)))
+                (Some (ELen (mkLenError 12 4 LsSlice LyIpAuthHeader 20), LyIpAuthHeader))).
+Proof.
+  split; [apply bytes_okb_spec; vm_compute; reflexivity|]. repeat split; vm_compute; reflexivity.
+Qed.
+(* ---- end audit round 2 ---- *)
